@@ -52,8 +52,11 @@ def merge(blocks, cons=(), mode='repeat', alignment=None):
             'alignment': alignment}
 
 
-def nest(outer, inner, cons=()):
-    return {'kind': 'nest', 'outer': outer, 'inner': inner, 'constraints': [list(c) for c in cons]}
+def nest(outer, inner, cons=(), alignment=None):
+    d = {'kind': 'nest', 'outer': outer, 'inner': inner, 'constraints': [list(c) for c in cons]}
+    if alignment:
+        d['alignment'] = alignment
+    return d
 
 
 def D(factors, block):
@@ -93,6 +96,12 @@ def fixed_corpus():
     add(D([A3, B2, within('G', ['A', 'B'], preds=(('table', [['a0', 'b0'], ['a1', 'b1']]), 'else'))],
           cross('ABG', 'AB', [['AtMostKInARow', 1, 'G', 'g0']])))
     add(D([A2, B2, CONG, transition('Q', 'G')], cross('ABGQ', 'AB', [['AtMostKInARow', 2, 'Q', 'q0']])))
+    # derived factors over an UNCROSSED source (a change of the source invalidates only the derived column)
+    add(D([A2, B2, C2, window('W', 'C', 2, start=0, preds=(('first', 'c0'), 'else'))], cross('ABCW', 'AB')))
+    add(D([A2, B2, C2, window('W', 'C', 3, start=1, preds=(('first', 'c0'), 'else'))], cross('ABCW', 'AB')))
+    add(D([A2, B2, C2, transition('Q', 'C')], cross('ABCQ', 'AB')))
+    add(D([A2, B2, C2, within('G', ['A', 'C'], preds=(('table', [['a0', 'c0'], ['a1', 'c1']]), 'else'))], cross('ABCG', 'AB')))
+    add(D([A2, B2, C2, window('W', 'C', 2, stride=2, preds=(('first', 'c0'), 'else'))], cross('ABCW', 'AB')))
     # ---- constraints (scope: whole block) -------------------------------------------------------------------------
     for c in (['AtMostKInARow', 1, 'A', 'a0'], ['AtMostKInARow', 2, 'A', None], ['AtLeastKInARow', 2, 'A', 'a0'],
               ['AtLeastKInARow', 2, 'A', None], ['ExactlyKInARow', 2, 'A', 'a1'], ['ExactlyKInARow', 1, 'A', 'a0'],
@@ -229,6 +238,11 @@ def randomgen_corpus():
           repeat(cross('ACG', 'AG'), [['MinimumTrials', 5]])))
     add(D([AW, B2], repeat(cross('AB', 'A'), [['MinimumTrials', 5]])))
     add(D([AW, B2], cross('AB', 'A', [['MinimumTrials', 8]])))
+    # weighted crossing, uneven source completions, Repeat whose leftover equals the number of distinct combinations
+    add(D([AW, C3, within('G', ['A', 'C'], preds=(('table', [['a0', 'c0'], ['a1', 'c1']]), 'else'))],
+          repeat(cross('ACG', 'AG'), [['MinimumTrials', 10]])))
+    add(D([AW, C3, within('G', ['A', 'C'], preds=(('table', [['a0', 'c0'], ['a1', 'c1']]), 'else'))],
+          repeat(cross('ACG', 'AG'), [['MinimumTrials', 8]])))
     # wide window in the crossing (preamble of 2) with two basic factors
     add(D([A2, B2, window('W', 'A', 3)], cross('ABW', 'W')))
     add(D([A2, B2, window('W', 'A', 3)], cross('ABW', 'BW')))
